@@ -105,20 +105,25 @@ func (x *Exec) installBases(st *State, key string, t types.Type, tag string) []*
 		hs[i] = &HArr{key: k, sort: c.Sort, base: base}
 		st.heap[k] = hs[i]
 	}
+	al := st.alloc
 	for i := 0; i < len(cs); i++ {
 		c := cs[i]
 		if c.Role == "arr" {
 			a, o, l, cp := hs[i].base, hs[i+1].base, hs[i+2].base, hs[i+3].base
-			ax := fmt.Sprintf("(forall ((r Int)) (! %s :pattern ((select %s r)) :pattern ((select %s r)) :pattern ((select %s r))))",
-				sliceFact(sSel(a, "r"), sSel(o, "r"), sSel(l, "r"), sSel(cp, "r"), st.alloc), a, l, cp)
+			f := func(args []string) string {
+				r := args[0]
+				return sliceFact(sSel(a, r), sSel(o, r), sSel(l, r), sSel(cp, r), al)
+			}
 			for _, s := range []string{a, l, cp, o} {
-				x.decls.Axiom(s, ax)
+				x.decls.Pat("sel1:"+s, f)
 			}
 			i += 3
 			continue
 		}
-		if f := x.rangeFact("(select "+hs[i].base+" r)", c, st.alloc); f != "true" {
-			x.decls.Axiom(hs[i].base, fmt.Sprintf("(forall ((r Int)) (! %s :pattern ((select %s r))))", f, hs[i].base))
+		if x.rangeFact("t", c, al) != "true" {
+			base := hs[i].base
+			cc := c
+			x.decls.Pat("sel1:"+base, func(args []string) string { return x.rangeFact(sSel(base, args[0]), cc, al) })
 		}
 	}
 	x.keyTypes[key] = t
@@ -325,18 +330,22 @@ func (x *Exec) lazyFor(st *State, et types.Type) *Lazy {
 func (x *Exec) elemBaseFacts(base []string, cs []Comp, allocTerm string) {
 	for i := 0; i < len(cs); i++ {
 		c := cs[i]
-		rd := func(k int) string { return "(select (select " + base[k] + " a) i)" }
 		if c.Role == "arr" {
-			ax := fmt.Sprintf("(forall ((a Int) (i Int)) (! %s :pattern (%s) :pattern (%s) :pattern (%s)))",
-				sliceFact(rd(i), rd(i+1), rd(i+2), rd(i+3), allocTerm), rd(i), rd(i+2), rd(i+3))
+			b0, b1, b2, b3 := base[i], base[i+1], base[i+2], base[i+3]
+			f := func(args []string) string {
+				rd := func(b string) string { return sSel(sSel(b, args[0]), args[1]) }
+				return sliceFact(rd(b0), rd(b1), rd(b2), rd(b3), allocTerm)
+			}
 			for k := i; k < i+4; k++ {
-				x.decls.Axiom(base[k], ax)
+				x.decls.Pat("sel2:"+base[k], f)
 			}
 			i += 3
 			continue
 		}
-		if f := x.rangeFact(rd(i), c, allocTerm); f != "true" {
-			x.decls.Axiom(base[i], fmt.Sprintf("(forall ((a Int) (i Int)) (! %s :pattern (%s)))", f, rd(i)))
+		if x.rangeFact("t", c, allocTerm) != "true" {
+			b0 := base[i]
+			cc := c
+			x.decls.Pat("sel2:"+b0, func(args []string) string { return x.rangeFact(sSel(sSel(b0, args[0]), args[1]), cc, allocTerm) })
 		}
 	}
 }
@@ -470,8 +479,9 @@ func (x *Exec) mapValArr(st *State, mt types.Type, c Comp) *HArr {
 	h := &HArr{key: key, sort: srt, base: base}
 	st.heap[key] = h
 	// value well-typedness
-	if f := x.rangeFact("(select (select "+base+" m) k)", c, st.alloc); f != "true" && c.Role == "" {
-		x.decls.Axiom(base, fmt.Sprintf("(forall ((m Int) (k %s)) (! %s :pattern ((select (select %s m) k))))", mapKeySort(m), f, base))
+	if x.rangeFact("t", c, st.alloc) != "true" && c.Role == "" {
+		al := st.alloc
+		x.decls.Pat("sel2:"+base, func(args []string) string { return x.rangeFact(sSel(sSel(base, args[0]), args[1]), c, al) })
 	}
 	return h
 }
@@ -483,7 +493,10 @@ func (x *Exec) mapLenArr(st *State, mt types.Type) *HArr {
 	}
 	base := fmt.Sprintf("%s@%d", sanitize(key), st.epoch)
 	x.decls.Const(base, "(Array Int Int)")
-	x.decls.Axiom(base, fmt.Sprintf("(forall ((m Int)) (! (and (<= 0 (select %s m)) (<= (select %s m) %s)) :pattern ((select %s m))))", base, base, capLimit, base))
+	x.decls.Pat("sel1:"+base, func(args []string) string {
+		t := sSel(base, args[0])
+		return sAnd(sLe("0", t), sLe(t, capLimit))
+	})
 	h := &HArr{key: key, sort: "Int", base: base}
 	st.heap[key] = h
 	return h
@@ -596,7 +609,9 @@ func (x *Exec) strLit(s string) string {
 
 func (x *Exec) strlen(s string) string {
 	x.decls.Fun("strlen", []string{"Str"}, "Int")
-	x.decls.Axiom("strlen", "(forall ((s Str)) (! (and (<= 0 (strlen s)) (<= (strlen s) "+capLimit+")) :pattern ((strlen s))))")
+	x.decls.Pat("app:strlen", func(args []string) string {
+		return sAnd(sLe("0", "(strlen "+args[0]+")"), sLe("(strlen "+args[0]+")", capLimit))
+	})
 	return "(strlen " + s + ")"
 }
 
@@ -608,8 +623,9 @@ func (x *Exec) byteAt(v string, i string, et types.Type) string {
 	}
 	fn := "elemAt." + typeName(et)
 	x.decls.Fun(fn, []string{"Val", "Int"}, c[0].Sort)
-	if f := x.rangeFact("("+fn+" v i)", c[0], ""); f != "true" {
-		x.decls.Axiom(fn, fmt.Sprintf("(forall ((v Val) (i Int)) (! %s :pattern ((%s v i))))", f, fn))
+	if x.rangeFact("t", c[0], "") != "true" {
+		cc := c[0]
+		x.decls.Pat("app:"+fn, func(args []string) string { return x.rangeFact("("+fn+" "+args[0]+" "+args[1]+")", cc, "") })
 	}
 	return "(" + fn + " " + v + " " + i + ")"
 }
@@ -617,7 +633,6 @@ func (x *Exec) byteAt(v string, i string, et types.Type) string {
 func kindName(k Kind) string {
 	return [...]string{"opaque", "bool", "int", "ref", "string", "array", "float", "slice", "struct", "tuple", "addr", "func"}[k]
 }
-
 
 // errConst: package-level error variables are treated as distinct non-nil constants (assumption A-ERR: never reassigned)
 func (x *Exec) errConst(key string) Val {
@@ -628,3 +643,17 @@ func (x *Exec) errConst(key string) Val {
 }
 
 func (x *Exec) noteErrGlobal(o *types.Var, v Val) {}
+
+func (x *Exec) byteArrayFacts(hv string) {
+	x.decls.Pat("sel2:"+hv, func(args []string) string {
+		t := sSel(sSel(hv, args[0]), args[1])
+		return sAnd(sLe("0", t), sLe(t, "255"))
+	})
+}
+
+func (x *Exec) strbyteFacts() {
+	x.decls.Pat("app:strbyte", func(args []string) string {
+		t := "(strbyte " + args[0] + " " + args[1] + ")"
+		return sAnd(sLe("0", t), sLe(t, "255"))
+	})
+}
